@@ -954,6 +954,32 @@ pub fn run_deser_case_known<R: Reg>(case: &DeserCase, prop: &str, slot: usize, l
                     }
                 }
                 // the base world must be unaffected
+                if crate::interp::LIGHT.load(Ordering::Relaxed) {
+                    // interpreter tier: the per-step bookkeeping of the oracles is off; read every
+                    // value of the base world and drop it, under the eyes of the interpreter
+                    let r = catch_unwind(AssertUnwindSafe(|| {
+                        let mut bad = None;
+                        if let Some(s) = interp.slots[0].as_mut() {
+                            for row in R::snapshot(&mut s.real) {
+                                for (c, o) in row.comps.iter().enumerate() {
+                                    if let Some(o) = o {
+                                        if !o.ok && bad.is_none() {
+                                            bad = Some(format!("entity {:?} component {c}: payload {} serial {:#x} is not a live value", row.id, o.payload, o.serial));
+                                        }
+                                    }
+                                }
+                            }
+                        }
+                        let slots = std::mem::take(&mut interp.slots);
+                        drop(slots);
+                        bad
+                    }));
+                    return match r {
+                        Ok(None) => None,
+                        Ok(Some(m)) => fail(&["C11"], "base-world-damaged", format!("after a failed deserialization the original world is damaged: {m}")),
+                        Err(_) => fail(&["C11"], "base-world-damaged", "reading or dropping the original world panicked after a failed deserialization".into()),
+                    };
+                }
                 let r = catch_unwind(AssertUnwindSafe(|| {
                     interp.muted.insert("exactly-once");
                     interp.muted.insert("exactly-once-count");
@@ -1104,6 +1130,48 @@ pub struct DeserReport {
     pub samples: Vec<serde_json::Value>,
     pub failure: Option<DeserReplay>,
     pub wall_s: f64,
+}
+
+/// Deterministic sample of edited-input cases for the interpreter tier (Miri): drawn from the same
+/// strategy as the native run, run natively first; kept when the edited input differs from the
+/// valid serialization of a non-empty world, the library was called, and no oracle fired. Half of
+/// the sample (as far as available) are inputs the library accepted. A pure function of the arguments.
+pub fn sample_deser_cases<R: Reg>(seed: u64, n: usize) -> Vec<DeserCase> {
+    use proptest::strategy::{Strategy, ValueTree};
+    let mut h = std::collections::hash_map::DefaultHasher::new();
+    (seed, "sample-deser", R::NAME).hash(&mut h);
+    let s = h.finish();
+    let mut seed_bytes = [0u8; 32];
+    for (i, b) in seed_bytes.iter_mut().enumerate() {
+        *b = (s.rotate_left(i as u32 * 7) as u8) ^ (i as u8).wrapping_mul(41);
+    }
+    let mut runner = TestRunner::new_with_rng(
+        PtConfig { failure_persistence: None, rng_seed: RngSeed::Fixed(s), ..PtConfig::default() },
+        proptest::test_runner::TestRng::from_seed(proptest::test_runner::RngAlgorithm::ChaCha, &seed_bytes),
+    );
+    let strat = case_strategy(false);
+    let (mut oks, mut errs) = (Vec::new(), Vec::new());
+    let mut attempts = 0;
+    while (oks.len() < n / 2 || errs.len() < n - n / 2) && attempts < n * 400 {
+        attempts += 1;
+        let Ok(tree) = strat.new_tree(&mut runner) else { continue };
+        let case = tree.current();
+        if case.base.len() > 10 || case.follow.len() > 12 {
+            continue;
+        }
+        let out = run_deser_case::<R>(&case, "C11", 0);
+        let st = &out.stats;
+        if out.fail.is_some() || !st.edited_differs || st.base_entities == 0 || st.screened || st.base_failed {
+            continue;
+        }
+        if st.outcome_ok && oks.len() < n / 2 {
+            oks.push(case);
+        } else if st.outcome_err && errs.len() < n - n / 2 {
+            errs.push(case);
+        }
+    }
+    oks.extend(errs);
+    oks
 }
 
 pub fn run_deser<R: Reg>(cfg: &crate::runner::Config) -> DeserReport {
